@@ -94,7 +94,7 @@ impl DocFn for RunUnit<'_> {
     fn call<D: Doc>(self) {
         let RunUnit { ctx, unit, vi } = self;
         ctx.begin(unit, u64::MAX);
-        let Some(p) = prep_doc_need::<D>(ctx.seed, ID, vi, ctx.tier, Need::Stream) else {
+        let Some(p) = prep_doc_need::<D>(ctx.seed, ID, vi, ctx.tier, Need::StreamEps) else {
             ctx.count("control_failures");
             return;
         };
@@ -161,7 +161,7 @@ struct Replay<'a> {
 impl DocFn for Replay<'_> {
     type Out = Result<Option<Violation>, String>;
     fn call<D: Doc>(self) -> Self::Out {
-        let Some(p) = prep_doc_need::<D>(self.seed, ID, self.case.vi, self.tier, Need::Stream) else { return Err("the fault-free control run of this value fails".into()) };
+        let Some(p) = prep_doc_need::<D>(self.seed, ID, self.case.vi, self.tier, Need::StreamEps) else { return Err("the fault-free control run of this value fails".into()) };
         Ok(exec(&p, self.case.residue % 4096).err())
     }
 }
